@@ -21,12 +21,26 @@ theorem init_unknown (ty : Ty) :
 @[simp] theorem recoverErr_ok {α : Type} (a : α) : recoverErr (Res.ok a) = .ok a := rfl
 
 theorem unmarshal_ext_map (E : Ext) (ty : Ty) (len n : Nat) (stream : List Item)
-    (h1 : 1 < len) (h2 : len ≤ maxExtLen) (hd : ty.isDyn = false) :
+    (h1 : 1 < len) (h2 : len ≤ maxExtLen) (hd : ty.isDyn = false) (hk : knownLenList ty n stream = false) :
     unmarshal E (.ext unknownWithRefinementsExt len (.map n) stream) ty =
       recoverErr ((rfnLoop E ty n stream ⟨⟨ty, .unk .unref⟩, [], freshWip ⟨ty, .unk .unref⟩⟩).bind Refine.newValue) := by
   have h1' : ¬ len ≤ 1 := by omega
   have h2' : ¬ len > maxExtLen := by omega
-  simp [unmarshal, h1', h2', hd, init_unknown, Res.bind]
+  simp [unmarshal, h1', h2', hd, init_unknown, Res.bind, hk]
+
+/-- /repo bb6ac26 only concerns list types -/
+theorem knownLenList_not_list (ty : Ty) (n : Nat) (s : List Item) (h : isListTy ty = false) :
+    knownLenList ty n s = false := by
+  simp [knownLenList, h]
+
+/-- … and refinements whose two length bounds differ (or that do not say "not null") -/
+theorem knownLenList_facts (ty : Ty) (n : Nat) (s : List Item) (nn : Bool) (lo hi : Int)
+    (hf : lenFacts n s (false, 0, Refine.maxInt) = (nn, lo, hi)) (h : nn = false ∨ lo ≠ hi) :
+    knownLenList ty n s = false := by
+  simp only [knownLenList, hf]
+  rcases h with h | h
+  · simp [h]
+  · simp [h]
 
 theorem unmarshal_plain (E : Ext) (ty : Ty) : unmarshal E plainUnknown ty = .ok ⟨ty, .unk .unref⟩ := by
   simp [unmarshal, plainUnknown, Value.unknown]
@@ -203,16 +217,20 @@ theorem setNull_nullness (n : Tri) (r : Rfn) (h : r ≠ .unref) : (setNull n r).
 /-- assembling the round trip of an unknown value from the run of the decoder's
 loop over the type-specific entries -/
 theorem unknown_rt_core (E : Ext) (vt : Ty) (r r' : Rfn) (sp : List Item) (hd : vt.isDyn = false)
+    (hkl : knownLenList vt ((nnEntry (decide (r.nullness = .f)) ++ sp).length / 2)
+      (nnEntry (decide (r.nullness = .f)) ++ sp) = false)
     (he : rfnEntries E vt r = .ok sp) (hrn : r.nullness ≠ .t)
     (hsize : (match marshalUnknown E vt r with
               | .ok (.ext _ len _ _) => decide (len ≤ maxExtLen)
               | _ => false) = true)
     (hfirst : ∀ x rest, sp = x :: rest → ∃ k, x = .int k)
+    (htr : trivialRfn r = (nnEntry (decide (r.nullness = .f)) ++ sp).isEmpty)
     (hrest : (nnEntry (decide (r.nullness = .f)) ++ sp).isEmpty = false →
       rfnLoop E vt (sp.length / 2) sp (bld vt (if r.nullness = .f then setNull .f (fw vt) else fw vt)) =
         .ok (bld vt r') ∧
-      Refine.newValue (bld vt r') = .ok ⟨vt, .unk r'⟩ ∧ Weaker vt r' r) :
-    ∃ it, marshalUnknown E vt r = .ok it ∧ ∃ r'', unmarshal E it vt = .ok ⟨vt, .unk r''⟩ ∧ Weaker vt r'' r := by
+      Refine.newValue (bld vt r') = .ok ⟨vt, .unk r'⟩ ∧ Weaker vt r' r ∧ keptBodyE E r' r) :
+    ∃ it, marshalUnknown E vt r = .ok it ∧ ∃ r'', unmarshal E it vt = .ok ⟨vt, .unk r''⟩ ∧ Weaker vt r'' r ∧
+      RfnKeptE E r'' r := by
   obtain ⟨hfw1, hfw2⟩ := fw_ne vt hd
   by_cases hemp : (nnEntry (decide (r.nullness = .f)) ++ sp).isEmpty = true
   · -- no refinement to write: the compact representation
@@ -223,15 +241,19 @@ theorem unknown_rt_core (E : Ext) (vt : Ty) (r r' : Rfn) (sp : List Item) (hd : 
       | nil => rfl
       | cons _ _ => simp [nnEntry, hnf] at hemp
     subst hsp
-    refine ⟨plainUnknown, marshalUnknown_plain E vt r hd hnf he, .unref, unmarshal_plain E vt, ?_⟩
+    refine ⟨plainUnknown, marshalUnknown_plain E vt r hd hnf he, .unref, unmarshal_plain E vt, ?_,
+      by have ht : trivialRfn r = true := by rw [htr]; exact hemp
+         simp [RfnKeptE, ht]⟩
     apply weaker_unref_of
     cases hn : r.nullness <;> simp_all
   · have hne : (nnEntry (decide (r.nullness = .f)) ++ sp).isEmpty = false := by simpa using hemp
-    obtain ⟨hloop, hnv, hweak⟩ := hrest hne
+    obtain ⟨hloop, hnv, hweak, hkept⟩ := hrest hne
     have hm := marshalUnknown_ext E vt r sp hd he hne
     rw [hm] at hsize
     simp only [decide_eq_true_eq] at hsize
-    refine ⟨_, hm, r', ?_, hweak⟩
+    refine ⟨_, hm, r', ?_, hweak, by
+      have ht : trivialRfn r = false := by rw [htr]; exact hne
+      simp [RfnKeptE, ht, hkept]⟩
     -- the stream starts with an integer key, so the body is longer than one byte
     have hbig : 1 < seqHdr ((nnEntry (decide (r.nullness = .f)) ++ sp).length / 2) +
         encSizeL (nnEntry (decide (r.nullness = .f)) ++ sp) := by
@@ -247,7 +269,7 @@ theorem unknown_rt_core (E : Ext) (vt : Ty) (r r' : Rfn) (sp : List Item) (hd : 
             simp only [nnEntry, hf, decide_false]
             exact encSizeL_int_pos _ _
       omega
-    rw [unmarshal_ext_map E vt _ _ _ hbig hsize hd]
+    rw [unmarshal_ext_map E vt _ _ _ hbig hsize hd hkl]
     have hcount : (nnEntry (decide (r.nullness = .f)) ++ sp).length / 2 =
         sp.length / 2 + (if decide (r.nullness = .f) then 1 else 0) := by
       by_cases hf : r.nullness = .f <;> simp [nnEntry, hf] <;> omega
@@ -260,6 +282,10 @@ theorem unknown_rt_core (E : Ext) (vt : Ty) (r r' : Rfn) (sp : List Item) (hd : 
     simp [Res.bind, hnv]
 
 
+theorem knl_nn (vt : Ty) (b : Bool) :
+    knownLenList vt ((nnEntry b ++ []).length / 2) (nnEntry b ++ []) = false := by
+  cases b <;> simp [knownLenList, nnEntry, lenFacts, decInt64, decBool, keyNullness, Refine.maxInt]
+
 /-- no type-specific entry: only the nullness travels -/
 theorem unknown_rt_plain (E : Ext) (vt : Ty) (r : Rfn) (hd : vt.isDyn = false)
     (he : rfnEntries E vt r = .ok []) (hrn : r.nullness ≠ .t)
@@ -267,20 +293,24 @@ theorem unknown_rt_plain (E : Ext) (vt : Ty) (r : Rfn) (hd : vt.isDyn = false)
               | .ok (.ext _ len _ _) => decide (len ≤ maxExtLen)
               | _ => false) = true)
     (hr : r.nullness = .f → r = setNull .f (fw vt))
-    (hc : collapse vt (setNull .f (fw vt)) = .ok none) :
-    ∃ it, marshalUnknown E vt r = .ok it ∧ ∃ r'', unmarshal E it vt = .ok ⟨vt, .unk r''⟩ ∧ Weaker vt r'' r := by
+    (hc : collapse vt (setNull .f (fw vt)) = .ok none)
+    (htr : trivialRfn r = (nnEntry (decide (r.nullness = Tri.f)) ++ ([] : List Item)).isEmpty)
+    (hkept : r.nullness = .f → keptBodyE E r r) :
+    ∃ it, marshalUnknown E vt r = .ok it ∧ ∃ r'', unmarshal E it vt = .ok ⟨vt, .unk r''⟩ ∧ Weaker vt r'' r ∧
+      RfnKeptE E r'' r := by
   obtain ⟨hfw1, hfw2⟩ := fw_ne vt hd
-  apply unknown_rt_core E vt r (setNull .f (fw vt)) [] hd he hrn hsize (by simp)
+  apply unknown_rt_core E vt r (setNull .f (fw vt)) [] hd (knl_nn vt _) he hrn hsize (by simp) htr
   intro hne
   have hf : r.nullness = .f := by
     by_cases hf : r.nullness = .f
     · exact hf
     · simp [nnEntry, hf] at hne
-  refine ⟨by simp [hf, loop_done], ?_, ?_⟩
+  refine ⟨by simp [hf, loop_done], ?_, ?_, ?_⟩
   · apply newValue_bld vt _ hd (setNull_ne _ _ hfw1)
     · rw [setNull_nullness _ _ hfw1]; simp
     · intro _; exact hc
   · rw [← hr hf]; exact weaker_refl _ _
+  · rw [← hr hf]; exact hkept hf
 
 
 /-! ### collections: length bounds -/
@@ -313,10 +343,28 @@ theorem collapse_coll (vt : Ty) (n : Tri) (lo hi : Int) (h : collStaysUnknown vt
 
 theorem maxInt_eq : Refine.maxInt = maxI64 := rfl
 
+theorem lenFacts_coll (n : Tri) (lo hi : Int) (h0 : 0 ≤ lo) (hle : lo ≤ hi) (hmax : hi ≤ Refine.maxInt) :
+    lenFacts ((nnEntry (decide ((Rfn.coll n lo hi).nullness = .f)) ++
+        ((if lo ≠ 0 then [.int keyLengthMin, encInt lo] else []) ++
+         (if hi ≠ Refine.maxInt then [.int keyLengthMax, encInt hi] else []))).length / 2)
+      (nnEntry (decide ((Rfn.coll n lo hi).nullness = .f)) ++
+        ((if lo ≠ 0 then [Item.int keyLengthMin, encInt lo] else []) ++
+         (if hi ≠ Refine.maxInt then [Item.int keyLengthMax, encInt hi] else [])))
+      (false, 0, Refine.maxInt) = (decide (n = .f), lo, hi) := by
+  have hlo64 : lo ≤ maxI64 := by rw [← maxInt_eq]; omega
+  have hhi64 : hi ≤ maxI64 := by rw [← maxInt_eq]; omega
+  have hhi0 : 0 ≤ hi := by omega
+  have e1 := decInt64_encInt lo h0 hlo64
+  have e2 := decInt64_encInt hi hhi0 hhi64
+  by_cases hn : n = .f <;> by_cases h1 : lo = 0 <;> by_cases h2 : hi = Refine.maxInt <;>
+    simp [Rfn.nullness, nnEntry, hn, h1, h2, lenFacts, decInt64_int, decBool, e1, e2,
+      keyNullness, keyLengthMin, keyLengthMax] <;> omega
+
 theorem unknown_rt_coll (E : Ext) (vt : Ty) (n : Tri) (lo hi : Int) (hc : isCollection vt = true)
     (h : rfnOK E vt (.coll n lo hi) = true) :
     ∃ it, marshalUnknown E vt (.coll n lo hi) = .ok it ∧
-      ∃ r'', unmarshal E it vt = .ok ⟨vt, .unk r''⟩ ∧ Weaker vt r'' (.coll n lo hi) := by
+      ∃ r'', unmarshal E it vt = .ok ⟨vt, .unk r''⟩ ∧ Weaker vt r'' (.coll n lo hi) ∧
+        RfnKeptE E r'' (.coll n lo hi) := by
   have hd : vt.isDyn = false := by cases vt <;> simp_all [isCollection, Ty.isDyn]
   have hfw : fw vt = .coll .u 0 Refine.maxInt := by cases vt <;> simp_all [isCollection, fw, freshWip]
   simp only [rfnOK, Bool.and_eq_true, decide_eq_true_eq, Rfn.nullness, tri_bne, Bool.or_eq_true] at h
@@ -332,15 +380,31 @@ theorem unknown_rt_coll (E : Ext) (vt : Ty) (n : Tri) (lo hi : Int) (hc : isColl
   have hlo64 : lo ≤ maxI64 := by rw [← maxInt_eq]; omega
   have hhi64 : hi ≤ maxI64 := by rw [← maxInt_eq]; omega
   have hhi0 : 0 ≤ hi := by omega
-  apply unknown_rt_core E vt (.coll n lo hi) (.coll n lo hi) _ hd he (by simpa [Rfn.nullness] using hnt') hsize
+  have hkl : knownLenList vt
+      ((nnEntry (decide ((Rfn.coll n lo hi).nullness = .f)) ++
+        ((if lo ≠ 0 then [.int keyLengthMin, encInt lo] else []) ++
+         (if hi ≠ Refine.maxInt then [.int keyLengthMax, encInt hi] else []))).length / 2)
+      (nnEntry (decide ((Rfn.coll n lo hi).nullness = .f)) ++
+        ((if lo ≠ 0 then [Item.int keyLengthMin, encInt lo] else []) ++
+         (if hi ≠ Refine.maxInt then [Item.int keyLengthMax, encInt hi] else []))) = false := by
+    by_cases hl : isListTy vt = true
+    · apply knownLenList_facts vt _ _ _ lo hi (lenFacts_coll n lo hi h0 hle hmax)
+      rcases hstay with hs | hs
+      · left; simpa [Rfn.nullness] using hs
+      · right
+        cases vt <;> simp_all [isListTy, collStaysUnknown]
+    · exact knownLenList_not_list _ _ _ (by simpa using hl)
+  apply unknown_rt_core E vt (.coll n lo hi) (.coll n lo hi) _ hd hkl he (by simpa [Rfn.nullness] using hnt') hsize
   · intro x rest hx
     by_cases h1 : lo ≠ 0 <;> by_cases h2 : hi ≠ Refine.maxInt <;> simp [h1, h2] at hx
     · exact ⟨_, hx.1.symm⟩
     · exact ⟨_, hx.1.symm⟩
     · exact ⟨_, hx.1.symm⟩
+  · by_cases hn : n = .f <;> by_cases h1 : lo = 0 <;> by_cases h2 : hi = Refine.maxInt <;>
+      simp [trivialRfn, Rfn.nullness, nnEntry, hn, h1, h2]
   · intro _
     rw [hwip]
-    refine ⟨?_, ?_, weaker_refl _ _⟩
+    refine ⟨?_, ?_, weaker_refl _ _, rfl⟩
     · have kmin : keyLengthMin = (if true then keyLengthMin else keyLengthMax) := rfl
       have kmax : keyLengthMax = (if false then keyLengthMin else keyLengthMax) := rfl
       by_cases h1 : lo = 0 <;> by_cases h2 : hi = Refine.maxInt
@@ -411,7 +475,8 @@ theorem weaker_str (n : Tri) (q p : String) (h : (bytes q).isPrefixOf (bytes p) 
 
 theorem unknown_rt_str (E : Ext) (n : Tri) (p : String) (h : rfnOK E .string (.str n p) = true) :
     ∃ it, marshalUnknown E .string (.str n p) = .ok it ∧
-      ∃ r'', unmarshal E it .string = .ok ⟨.string, .unk r''⟩ ∧ Weaker .string r'' (.str n p) := by
+      ∃ r'', unmarshal E it .string = .ok ⟨.string, .unk r''⟩ ∧ Weaker .string r'' (.str n p) ∧
+        RfnKeptE E r'' (.str n p) := by
   simp only [rfnOK, Bool.and_eq_true, Rfn.nullness, tri_bne, decide_eq_true_eq, beq_iff_eq] at h
   obtain ⟨⟨⟨_, hnt⟩, hsize⟩, hnp, hsafe⟩ := h
   have hfw : fw .string = .str .u "" := rfl
@@ -421,35 +486,53 @@ theorem unknown_rt_str (E : Ext) (n : Tri) (p : String) (h : rfnOK E .string (.s
   -- the prefix that travels
   by_cases hp : p = ""
   · subst hp
-    apply unknown_rt_core E .string (.str n "") (.str n "") [] rfl (by simp [rfnEntries]) (by simpa [Rfn.nullness] using hnt) hsize
-      (by simp)
+    apply unknown_rt_core E .string (.str n "") (.str n "") [] rfl (knownLenList_not_list _ _ _ rfl) (by simp [rfnEntries]) (by simpa [Rfn.nullness] using hnt) hsize
+      (by simp) (by cases n <;> simp [trivialRfn, Rfn.nullness, nnEntry])
     intro _
     rw [hwip]
-    refine ⟨by simp [loop_done], ?_, weaker_refl _ _⟩
+    refine ⟨by simp [loop_done], ?_, weaker_refl _ _, ⟨"", rfl, by simp [bytes_empty, maxPrefixLength]⟩⟩
     apply newValue_bld .string _ rfl (by simp) (by simpa [Rfn.nullness] using hnt)
     intro _; rfl
   · -- q: the prefix as written
     have hq : ∃ q, rfnEntries E .string (.str n p) = .ok [.int keyStringPrefix, .str q] ∧ E.norm q = q ∧
-        (bytes q).isPrefixOf (bytes p) = true := by
+        (bytes q).isPrefixOf (bytes p) = true ∧
+        (if (bytes p).length > maxPrefixLength then
+           E.safePrefix ((bytes p).take (maxPrefixLength - 1)) = some q else q = p) := by
       by_cases hlong : (bytes p).length > maxPrefixLength
       · simp only [hlong, if_true] at hsafe
         cases hs : E.safePrefix ((bytes p).take (maxPrefixLength - 1)) with
         | none => simp [hs] at hsafe
         | some q =>
           simp only [hs, Bool.and_eq_true, beq_iff_eq] at hsafe
-          exact ⟨q, by simp [rfnEntries, hp, hlong, hs], hsafe.1, hsafe.2⟩
-      · refine ⟨p, by simp [rfnEntries, hp, hlong], hnp, ?_⟩
+          exact ⟨q, by simp [rfnEntries, hp, hlong, hs], hsafe.1, hsafe.2, by simp [hlong]⟩
+      · refine ⟨p, by simp [rfnEntries, hp, hlong], hnp, ?_, by simp [hlong]⟩
         rw [List.isPrefixOf_iff_prefix]
         exact List.prefix_refl _
-    obtain ⟨q, he, hnq, hpre⟩ := hq
-    apply unknown_rt_core E .string (.str n p) (.str n (if (bytes q).length > 0 then q else "")) _ rfl he
+    obtain ⟨q, he, hnq, hpre, hwhich⟩ := hq
+    have hbq : bytes (if (bytes q).length > 0 then q else "") = bytes q := by
+      by_cases hl : (bytes q).length > 0
+      · simp [hl]
+      · have : bytes q = [] := by
+          cases hb : bytes q with
+          | nil => rfl
+          | cons _ _ => simp [hb] at hl
+        simp [hl, bytes_empty, this]
+    apply unknown_rt_core E .string (.str n p) (.str n (if (bytes q).length > 0 then q else "")) _ rfl (knownLenList_not_list _ _ _ rfl) he
       (by simpa [Rfn.nullness] using hnt) hsize
     · intro x rest hx
       simp at hx
       exact ⟨_, hx.1.symm⟩
+    · cases n <;> simp [trivialRfn, Rfn.nullness, nnEntry, hp]
     · intro _
       rw [hwip]
-      refine ⟨?_, ?_, ?_⟩
+      refine ⟨?_, ?_, ?_, ?_⟩
+      rotate_left 3
+      · refine ⟨_, rfl, ?_⟩
+        by_cases hlong : (bytes p).length > maxPrefixLength
+        · simp only [hlong, if_true] at hwhich ⊢
+          exact ⟨q, hwhich, hbq, by rw [hbq]; exact hpre⟩
+        · simp only [hlong, if_false] at hwhich ⊢
+          rw [hbq, hwhich]
       · simp only [List.length_cons, List.length_nil]
         rw [loop_prefix, hnq, step_prefix]
         simp [Res.bind, loop_done]
@@ -549,7 +632,8 @@ theorem collapse_num (n : Tri) (lo hi : Option Bound)
 
 theorem unknown_rt_num (E : Ext) (n : Tri) (lo hi : Option Bound) (h : rfnOK E .number (.num n lo hi) = true) :
     ∃ it, marshalUnknown E .number (.num n lo hi) = .ok it ∧
-      ∃ r'', unmarshal E it .number = .ok ⟨.number, .unk r''⟩ ∧ Weaker .number r'' (.num n lo hi) := by
+      ∃ r'', unmarshal E it .number = .ok ⟨.number, .unk r''⟩ ∧ Weaker .number r'' (.num n lo hi) ∧
+        RfnKeptE E r'' (.num n lo hi) := by
   simp only [rfnOK, Bool.and_eq_true, Rfn.nullness, tri_bne, decide_eq_true_eq] at h
   obtain ⟨⟨⟨_, hnt⟩, hsize⟩, ⟨hbl, hbh⟩, hboth⟩ := h
   have hfw : fw .number = .num .u none none := rfl
@@ -569,18 +653,20 @@ theorem unknown_rt_num (E : Ext) (n : Tri) (lo hi : Option Bound) (h : rfnOK E .
   | none =>
     cases hi with
     | none =>
-      apply unknown_rt_core E .number _ (.num n none none) _ rfl he hnt' hsize (by simp [boundEntry])
+      apply unknown_rt_core E .number _ (.num n none none) _ rfl (knownLenList_not_list _ _ _ rfl) he hnt' hsize (by simp [boundEntry])
+        (by cases n <;> simp [trivialRfn, Rfn.nullness, nnEntry, boundEntry])
       intro _
       rw [hwip]
-      refine ⟨by simp [boundEntry, loop_done], ?_, weaker_refl _ _⟩
+      refine ⟨by simp [boundEntry, loop_done], ?_, weaker_refl _ _, ⟨none, none, rfl, trivial, trivial⟩⟩
       exact newValue_bld .number _ rfl (by simp) hnt' (fun _ => rfl)
     | some hb =>
       obtain ⟨z, hz1, hz2, hz3⟩ := hdh hb rfl
-      apply unknown_rt_core E .number _ (.num n none (some ⟨z, hb.incl⟩)) _ rfl he hnt' hsize
+      apply unknown_rt_core E .number _ (.num n none (some ⟨z, hb.incl⟩)) _ rfl (knownLenList_not_list _ _ _ rfl) he hnt' hsize
       · intro x rest hx; simp [boundEntry] at hx; exact ⟨_, hx.1.symm⟩
+      · cases n <;> simp [trivialRfn, Rfn.nullness, nnEntry, boundEntry]
       · intro _
         rw [hwip]
-        refine ⟨?_, ?_, ?_⟩
+        refine ⟨?_, ?_, ?_, ?_⟩
         · simp only [boundEntry, List.nil_append, List.length_cons, List.length_nil]
           rw [kmax, loop_bound E 0 false hb.v z hb.incl hz1]
           simp only [Bool.false_eq_true, if_false]
@@ -588,15 +674,17 @@ theorem unknown_rt_num (E : Ext) (n : Tri) (lo hi : Option Bound) (h : rfnOK E .
           simp [Res.bind, loop_done]
         · exact newValue_bld .number _ rfl (by simp) hnt' (fun _ => rfl)
         · exact weaker_num n none _ none _ trivial ⟨hz2, rfl⟩
+        · exact ⟨none, _, rfl, trivial, ⟨hz2, rfl⟩⟩
   | some lb =>
     obtain ⟨y, hy1, hy2, hy3⟩ := hdl lb rfl
     cases hi with
     | none =>
-      apply unknown_rt_core E .number _ (.num n (some ⟨y, lb.incl⟩) none) _ rfl he hnt' hsize
+      apply unknown_rt_core E .number _ (.num n (some ⟨y, lb.incl⟩) none) _ rfl (knownLenList_not_list _ _ _ rfl) he hnt' hsize
       · intro x rest hx; simp [boundEntry] at hx; exact ⟨_, hx.1.symm⟩
+      · cases n <;> simp [trivialRfn, Rfn.nullness, nnEntry, boundEntry]
       · intro _
         rw [hwip]
-        refine ⟨?_, ?_, ?_⟩
+        refine ⟨?_, ?_, ?_, ?_⟩
         · simp only [boundEntry, List.append_nil, List.length_cons, List.length_nil]
           rw [kmin, loop_bound E 0 true lb.v y lb.incl hy1]
           simp only [if_true]
@@ -604,17 +692,19 @@ theorem unknown_rt_num (E : Ext) (n : Tri) (lo hi : Option Bound) (h : rfnOK E .
           simp [Res.bind, loop_done]
         · exact newValue_bld .number _ rfl (by simp) hnt' (fun _ => rfl)
         · exact weaker_num n _ none _ none ⟨hy2, rfl⟩ trivial
+        · exact ⟨_, none, rfl, ⟨hy2, rfl⟩, trivial⟩
     | some hb =>
       obtain ⟨z, hz1, hz2, hz3⟩ := hdh hb rfl
       simp only [Bool.and_eq_true, decide_eq_true_eq, Bool.or_eq_true, Bool.not_eq_true', beq_iff_eq] at hboth
       obtain ⟨hlt, hcol⟩ := hboth
       have hyz : Num.cmp y z < 0 := by
         rw [NumCmp.cmp_congr_left hy2 z, NumCmp.cmp_congr_right hz2 lb.v]; exact hlt
-      apply unknown_rt_core E .number _ (.num n (some ⟨y, lb.incl⟩) (some ⟨z, hb.incl⟩)) _ rfl he hnt' hsize
+      apply unknown_rt_core E .number _ (.num n (some ⟨y, lb.incl⟩) (some ⟨z, hb.incl⟩)) _ rfl (knownLenList_not_list _ _ _ rfl) he hnt' hsize
       · intro x rest hx; simp [boundEntry] at hx; exact ⟨_, hx.1.symm⟩
+      · cases n <;> simp [trivialRfn, Rfn.nullness, nnEntry, boundEntry]
       · intro _
         rw [hwip]
-        refine ⟨?_, ?_, ?_⟩
+        refine ⟨?_, ?_, ?_, ?_⟩
         · simp only [boundEntry, List.cons_append, List.nil_append, List.length_cons, List.length_nil]
           rw [kmin, loop_bound E 1 true lb.v y lb.incl hy1]
           simp only [if_true]
@@ -639,6 +729,7 @@ theorem unknown_rt_num (E : Ext) (n : Tri) (lo hi : Option Bound) (h : rfnOK E .
             · exact hc
           exact needsText_false (hprec ▸ hy3) hz3
         · exact weaker_num n _ _ _ _ ⟨hy2, rfl⟩ ⟨hz2, rfl⟩
+        · exact ⟨_, _, rfl, ⟨hy2, rfl⟩, ⟨hz2, rfl⟩⟩
 
 
 /-! ### every kind -/
@@ -650,7 +741,7 @@ theorem collapse_fresh (vt : Ty) (hd : vt.isDyn = false) : collapse vt (setNull 
 writes decodes to an unknown value of the same type with a weaker-or-equal refinement. -/
 theorem unknown_rt (E : Ext) (vt : Ty) (r : Rfn) (hd : vt.isDyn = false) (h : rfnOK E vt r = true) :
     ∃ it, marshalUnknown E vt r = .ok it ∧
-      ∃ r'', unmarshal E it vt = .ok ⟨vt, .unk r''⟩ ∧ Weaker vt r'' r := by
+      ∃ r'', unmarshal E it vt = .ok ⟨vt, .unk r''⟩ ∧ Weaker vt r'' r ∧ RfnKeptE E r'' r := by
   have hparts := h
   simp only [rfnOK, Bool.and_eq_true] at hparts
   obtain ⟨⟨⟨hk, hnt⟩, hsize⟩, _⟩ := hparts
@@ -660,6 +751,8 @@ theorem unknown_rt (E : Ext) (vt : Ty) (r : Rfn) (hd : vt.isDyn = false) (h : rf
     apply unknown_rt_plain E vt .unref hd (by cases vt <;> simp [rfnEntries]) hnt' hsize
     · intro hf; simp [Rfn.nullness] at hf
     · exact collapse_fresh vt hd
+    · simp [trivialRfn, Rfn.nullness, nnEntry]
+    · intro hf; simp [Rfn.nullness] at hf
   | nullable n =>
     apply unknown_rt_plain E vt (.nullable n) hd (by cases vt <;> simp_all [rfnEntries, kindOk]) hnt' hsize
     · intro hf
@@ -667,6 +760,8 @@ theorem unknown_rt (E : Ext) (vt : Ty) (r : Rfn) (hd : vt.isDyn = false) (h : rf
       subst hf
       cases vt <;> simp_all [kindOk, fw, freshWip, setNull]
     · exact collapse_fresh vt hd
+    · cases n <;> simp [trivialRfn, Rfn.nullness, nnEntry]
+    · intro _; rfl
   | str n p =>
     cases vt <;> simp [kindOk] at hk
     exact unknown_rt_str E n p h
